@@ -24,7 +24,11 @@ txt += ("\nLessons that were turned into input classes everywhere they apply: in
         "structural zeros and exact dependencies (dead bond indices, duplicated slices, 0/1 matrices, zero rows/columns before informative ones), exactly-zero and\n"
         "tiny (1e-13) next to large (1e7) coefficients with scale-covariant tolerances, exactly-zero states (unreachable sector, disjoint bond), duplicate edges whose\n"
         "count hits structural numbers, repeated calls on the same stateful object, hostile memory layouts (Fortran order, strided and negative-stride views,\n"
-        "read-only), calls relying on documented default arguments, long Lanczos runs (m up to 96), id collisions of every kind in `OpGraph.add`.\n\n"
+        "read-only), calls relying on documented default arguments, long Lanczos runs (m up to 96), id collisions of every kind in `OpGraph.add`; from round 3:\n"
+        "histories that change an object IN PLACE between two uses of it (Hamiltonian quench under the same MPO object, edited tensors, edited coefficient arrays,\n"
+        "edited chain objects, edited start vectors: stale caches keyed by object identity), results HELD while later calls are made and verified only afterwards\n"
+        "(`Ctx.hold`: shared output buffers), hostile operator ids (negative ids -- `hash(-1) == hash(-2)` in CPython --, huge ids, non-zero identity id) and\n"
+        "charges from -2..2, defective / highly non-normal matrices for the general Krylov branch, sequences of orthonormalisations with edits in between.\n\n"
         "Note on the repository suite: `test_krylov.py::test_eigh_krylov` fails in about 2 % of runs on the unchanged tree (12 of 600 seeded replays of its body, the\n"
         "same number before and after fix `3c1fa1a`): its tolerance on the second Ritz value is statistical. It is unrelated to any change made here.\n")
 d = open('/verif/DESIGN.md').read()
